@@ -1195,3 +1195,56 @@ def c02(r):
         return True
     r.negctl("Trace_Lunar", ch[:6], {"C02Year": [(elong, "C02.newMoon.own-ephemeris"), (indep, "C02.newMoon.independent"),
                                                   (leap_move, "C02.leap."), (add_leap, "C02.leap."), (shift_first, "C02.")]}, per_kind=1)
+
+
+# --------------------------------------------------------------------- C08
+@plan("C08", "exploration")
+def c08(r):
+    thorough = r.tier == "thorough"
+    r.rule = ("Contract.tla holds one hand-reviewed contract per exported zero-argument accessor reflection finds on the objects reachable from a date "
+              "(548 accessors on 31 types: Solar, Lunar, EightChar, Yun, DaYun, LiuNian, XiaoYun, LiuYue, LunarTime, NineStar, Tao, Foto, their festivals, "
+              "LunarYear, LunarMonth, SolarWeek/Month/Season/HalfYear/Year, JieQi, ShuJiu, Fu, Holiday): integer range, membership in a published vocabulary, "
+              "non-empty, list without duplicates / non-empty, object present. The driver walks %s days x 2 times of day (00:00, 01:00, 12:00, 23:00, 23:59:59 "
+              "rotating) x both day-boundary conventions, genders, start schools and week starts rotating, calls every accessor by reflection and aggregates "
+              "per accessor: panics with witnesses, min/max, the set of distinct values / list elements, list (length, distinct length) pairs, empty strings, "
+              "duplicate witnesses. TLC checks each aggregate against its contract; an accessor without a contract is rejected as unclassified. "
+              "Distinct non-trivial case = distinct accessor (the aggregation is sound because the claim is universal).")
+    r.rule = r.rule % ("every 12th civil day of 1..9998 (about 300 000)" if thorough else "3 000 seeded + 90 boundary")
+    r.assumptions += ["this property has no transitions: the TLA+ contributes the contract table and the verdict, the exploration is the driver's",
+                      "value sets are capped at 400 distinct values per accessor (overflow is itself reported for vocabulary contracts)"]
+    r.build()
+    ch = r.drive("c08accessors", args={"days": 300000 if thorough else 3000}, maxlines=0)
+    r.validate("Trace_Contract", ch)
+    r.sample_from(ch[:1])
+    r.cov["samples"] = [s[:400] for s in r.cov["samples"]]
+    accs = set()
+    calls = 0
+    for c in ch:
+        for line in open(c, encoding="utf-8"):
+            e = json.loads(line)
+            accs.add(e["acc"])
+            calls += e["calls"]
+    r.cov["accessors"] = len(accs)
+    r.cov["accessor_calls"] = calls
+    r.cov["distinct_nontrivial"] = len(accs)
+    r.cov["mc_runs"].append({"note": "no state space (see assumptions)"})
+    src = open(os.path.join(r.specdir, "Contract.tla"), encoding="utf-8").read()
+    known = set(re.findall(r'^  "([A-Za-z]+\\.[A-Za-z0-9]+)",?$', src, re.M))
+    missing = known - accs
+    if len(missing) > 25:
+        raise Infra("vacuity: %d accessors of Contract.tla were never exercised: %s" % (len(missing), sorted(missing)[:10]))
+    r.cov["contract_entries_not_exercised"] = sorted(missing)
+    def by(acc, fn):
+        def f(e):
+            if e["acc"] != acc: return False
+            fn(e)
+            return True
+        return f
+    r.negctl("Trace_Contract", ch[0], {"C08Acc": [
+        (by("Lunar.GetDayGanIndex", lambda e: e.__setitem__("max", 10)), "C08.index-in-range"),
+        (by("Lunar.GetDayGan", lambda e: e["vals"].append("子")), "C08.name-from-vocabulary"),
+        (by("ShuJiu.GetName", lambda e: e["vals"].append("十九")), "C08.name-from-vocabulary"),
+        (by("Lunar.GetXiu", lambda e: e.__setitem__("panics", 1)), "C08.total"),
+        (by("Lunar.GetDayYi", lambda e: e["dup"].append("x,x")), "C08.list-no-duplicates"),
+        (by("Lunar.GetPengZuGan", lambda e: e.__setitem__("empties", 2)), "C08.non-empty"),
+        (by("Solar.GetXingZuo", lambda e: e.__setitem__("acc", "Solar.GetNewThing")), "C08.accessor.unclassified")]}, per_kind=1)
